@@ -18,6 +18,7 @@
 #include <tuple>
 #include <cstdlib>
 #include <new>
+#include <type_traits>
 
 #include <bluetoe/nrf52.hpp>
 
@@ -32,6 +33,10 @@ struct bridge_state
     read_buffer     rx{ nullptr, 0 };
     std::tuple< bool, bool, bool > rx_result{ false, false, false };
     std::uint32_t   margin_us = 0;
+    std::uint64_t   rx_counter = 0, tx_counter = 0;
+    std::uint8_t*   encrypted_area = nullptr;
+    // the world sees PDUs without the gap the encryption capable radio keeps between header and body
+    std::uint8_t    adv_copy[ 48 ], rsp_copy[ 48 ], response_copy[ 48 ], adv_rx_scratch[ 64 ], evt_rx_scratch[ 272 ], evt_tx_scratch[ 272 ];
 };
 
 inline bridge_state g_bridge;
@@ -97,21 +102,49 @@ struct bridge_hw
     };
 };
 
+// the Hardware of the encryption capable radio: a gap byte in every PDU, encryption as a flag and a key per direction (no cipher: the air
+// of the world decides from flags and keys of both sides whether a PDU can be decoded), packet counters counted
+struct bridge_hw_crypto : bridge_hw
+{
+    static int pdu_gap_required_by_encryption() { return 1; }
+    static void init( std::uint8_t* encrypted_area, void ( *isr )( void* ), void* that ) { g_bridge = bridge_state(); g_bridge.encrypted_area = encrypted_area; g_bridge.isr = isr; g_bridge.that = that; }
+    static void configure_encryption( bool receive, bool transmit )
+    {
+        radio_state& s = r();
+        if ( receive && !transmit ) ++s.rx_enc_starts;      // start_receive_encrypted()
+        s.rx_enc = receive; s.tx_enc = transmit;
+    }
+    static std::pair< std::uint64_t, std::uint32_t > setup_encryption( bluetoe::details::uint128_t key, std::uint64_t, std::uint32_t )
+    {
+        radio_state& s = r();
+        s.enc_key = key; s.key_set = true; ++s.enc_setups;
+        g_bridge.rx_counter = g_bridge.tx_counter = 0;
+        return { 0x0123456789abcdefull, 0x89abcdefu };
+    }
+    static void increment_receive_packet_counter() { ++g_bridge.rx_counter; }
+    static void increment_transmit_packet_counter() { ++g_bridge.tx_counter; }
+    static void setup_identity_resolving_address( const std::uint8_t* ) {}
+    static void set_identity_resolving_key( const bluetoe::details::identity_resolving_key_t& ) {}
+};
+
 // makes the radio_state known before the front end's constructor runs
 struct bridge_registrar : radio_state
 {
     bridge_registrar() { g_current_radio = this; nrf_shim::install(); }
 };
 
-template < std::size_t TransmitSize, std::size_t ReceiveSize, typename CallBack >
-class nrf_bridge_radio :
+template < std::size_t TransmitSize, std::size_t ReceiveSize, typename CallBack, bool Crypto >
+class nrf_bridge_radio_impl :
     public bridge_registrar,
-    public bluetoe::nrf52_details::nrf52_radio< TransmitSize, ReceiveSize, false, CallBack, bridge_hw, bluetoe::nrf::sleep_clock_crystal_oscillator, bluetoe::nrf::leave_run_on_interrupt >
+    public bluetoe::nrf52_details::nrf52_radio< TransmitSize, ReceiveSize, Crypto, CallBack, typename std::conditional< Crypto, bridge_hw_crypto, bridge_hw >::type,
+                                                bluetoe::nrf::sleep_clock_crystal_oscillator, bluetoe::nrf::leave_run_on_interrupt >
 {
 public:
-    using front_t = bluetoe::nrf52_details::nrf52_radio< TransmitSize, ReceiveSize, false, CallBack, bridge_hw, bluetoe::nrf::sleep_clock_crystal_oscillator, bluetoe::nrf::leave_run_on_interrupt >;
+    using front_t = bluetoe::nrf52_details::nrf52_radio< TransmitSize, ReceiveSize, Crypto, CallBack, typename std::conditional< Crypto, bridge_hw_crypto, bridge_hw >::type,
+                                                         bluetoe::nrf::sleep_clock_crystal_oscillator, bluetoe::nrf::leave_run_on_interrupt >;
+    static constexpr std::size_t gap = Crypto ? 1 : 0;
 
-    nrf_bridge_radio()
+    nrf_bridge_radio_impl()
     {
         real_front = true;
         g_bridge.margin_us = front_t::connection_event_setup_time_us;
@@ -126,12 +159,12 @@ public:
         };
         front_adv_reception = [ this ]( const std::uint8_t* pdu, std::size_t size ) -> bool {
             fire();
-            if ( pdu != g_bridge.rx.buffer ) std::memcpy( g_bridge.rx.buffer, pdu, std::min( size, g_bridge.rx.size ) );
+            to_radio( pdu, size, g_bridge.rx );
             g_bridge.rx_result = std::make_tuple( true, true, true );
             g_bridge.tx_configured = false;
             fire();                                                         // the decision of the inter frame space
             const bool responded = g_bridge.tx_configured;
-            if ( responded ) { front_response = g_bridge.tx; fire(); }      // the scan response is out
+            if ( responded ) { front_response = from_radio( g_bridge.tx, g_bridge.response_copy, sizeof g_bridge.response_copy ); fire(); }      // the scan response is out
             front_t::run();
             return responded;
         };
@@ -147,27 +180,26 @@ public:
         };
         cb_try_event_cancelation = []() {};
         cb_scan_request_in_filter = []( const bluetoe::link_layer::device_address& ) { return false; };
-        // the receive buffer of the event was chosen when the event was scheduled; without room the front end listens with 3 bytes
-        buf_allocate_receive = []() { return g_bridge.rx.size > 3 ? g_bridge.rx : read_buffer{ nullptr, 0 }; };
-        buf_received = []( read_buffer ) {
-            g_bridge.rx_result = std::make_tuple( true, true, true );
-            g_bridge.tx_configured = false;
-            g_bridge.isr( g_bridge.that );
-            return g_bridge.tx_configured ? g_bridge.tx : write_buffer{ nullptr, 0 };
+        // the receive buffer of the event was chosen when the event was scheduled; without room the front end listens with 3 bytes.
+        // The world fills a buffer without gap.
+        buf_allocate_receive = []() {
+            if ( g_bridge.rx.size <= 3 ) return read_buffer{ nullptr, 0 };
+            return gap ? read_buffer{ g_bridge.evt_rx_scratch, std::min( g_bridge.rx.size - gap, sizeof g_bridge.evt_rx_scratch ) } : g_bridge.rx;
         };
+        buf_received = [ this ]( read_buffer b ) { return reception( b, true ); };
+        buf_mic_failed = [ this ]( read_buffer b ) { return reception( b, false ); };
         buf_next_transmit = [ this ]() {
             // a PDU for which there is no room: the header is all the radio keeps
             if ( g_bridge.rx.size >= 2 ) { g_bridge.rx.buffer[ 0 ] = front_rx_header[ 0 ]; g_bridge.rx.buffer[ 1 ] = front_rx_header[ 1 ]; }
-            g_bridge.rx_result = std::make_tuple( true, true, true );
-            g_bridge.tx_configured = false;
-            g_bridge.isr( g_bridge.that );
-            return g_bridge.tx_configured ? g_bridge.tx : write_buffer{ nullptr, 0 };
+            return isr_and_response( true );
         };
     }
 
     void schedule_advertisment( unsigned ch, const write_buffer& advertising_data, const write_buffer& response_data, delta_time when, const read_buffer& receive )
     {
-        adv_data = advertising_data; rsp_data = response_data; adv_receive = receive;
+        adv_data = from_radio( advertising_data, g_bridge.adv_copy, sizeof g_bridge.adv_copy );
+        rsp_data = from_radio( response_data, g_bridge.rsp_copy, sizeof g_bridge.rsp_copy );
+        adv_receive = gap ? read_buffer{ g_bridge.adv_rx_scratch, std::min( receive.size - gap, sizeof g_bridge.adv_rx_scratch ) } : receive;
         front_t::schedule_advertisment( ch, advertising_data, response_data, when, receive );
     }
 
@@ -180,7 +212,60 @@ public:
 
 private:
     void fire() { g_bridge.isr( g_bridge.that ); }
+
+    // header, body -> header, gap, body
+    static void to_radio( const std::uint8_t* pdu, std::size_t size, const read_buffer& target )
+    {
+        if ( !gap ) { if ( pdu != target.buffer ) std::memcpy( target.buffer, pdu, std::min( size, target.size ) ); return; }
+        if ( size < 2 || target.size < 3 ) return;
+        target.buffer[ 0 ] = pdu[ 0 ]; target.buffer[ 1 ] = pdu[ 1 ]; target.buffer[ 2 ] = 0;
+        std::memcpy( target.buffer + 3, pdu + 2, std::min( size - 2, target.size - 3 ) );
+    }
+
+    static write_buffer from_radio( const write_buffer& b, std::uint8_t* copy, std::size_t copy_size )
+    {
+        if ( !gap || b.buffer == nullptr || b.size < 3 ) return b;
+        const std::size_t body = std::min( b.size - 3, copy_size - 2 );
+        copy[ 0 ] = b.buffer[ 0 ]; copy[ 1 ] = b.buffer[ 1 ];
+        std::memcpy( copy + 2, b.buffer + 3, body );
+        return write_buffer{ copy, 2 + body };
+    }
+
+    write_buffer isr_and_response( bool valid_pdu )
+    {
+        g_bridge.rx_result = std::make_tuple( true, valid_pdu, true );
+        g_bridge.tx_configured = false;
+        fire();
+        if ( !g_bridge.tx_configured ) return write_buffer{ nullptr, 0 };
+        return from_radio( g_bridge.tx, g_bridge.evt_tx_scratch, sizeof g_bridge.evt_tx_scratch );
+    }
+
+    write_buffer reception( read_buffer b, bool valid_pdu )
+    {
+        if ( gap ) to_radio( b.buffer, 2 + b.buffer[ 1 ], g_bridge.rx );
+        return isr_and_response( valid_pdu );
+    }
 };
+
+template < std::size_t TransmitSize, std::size_t ReceiveSize, typename CallBack >
+class nrf_bridge_radio : public nrf_bridge_radio_impl< TransmitSize, ReceiveSize, CallBack, false > {};
+
+// with link encryption: PDU layout with the gap byte, packet counters, and the real security tool box of the binding (security_tool_box.cpp, uECC)
+template < std::size_t TransmitSize, std::size_t ReceiveSize, typename CallBack >
+class nrf_bridge_radio_enc : public nrf_bridge_radio_impl< TransmitSize, ReceiveSize, CallBack, true > {};
+
+}
+
+namespace bluetoe { namespace link_layer {
+    // the layout follows the radio type the link layer is instantiated with
+    template < std::size_t TransmitSize, std::size_t ReceiveSize, typename CallBack >
+    struct pdu_layout_by_radio< stack::nrf_bridge_radio_enc< TransmitSize, ReceiveSize, CallBack > >
+    {
+        using pdu_layout = bluetoe::nrf_details::encrypted_pdu_layout;
+    };
+} }
+
+namespace stack {
 
 // nrf52_radio_base leaves its flags to the zero initialisation of static storage: the link layer is placed in zeroed memory
 template < class T >
